@@ -57,7 +57,9 @@ _CALL_UP = {'Callable[[VBase],VDerived]': ['Callable[[VDerived],VBase]', 'Callab
 def widen(draw, node):
     """A hint whose meaning includes the meaning of ``node`` (by the reference semantics)."""
     k = node[0]
-    opts = ['same', 'optional', 'union+']
+    # 'ann-over-ignorable' is NOT a widening but a soundness probe: Annotated[object | ~T, <validator>] constrains through its
+    # metadata only, so a hint is its subhint only if every conforming object happens to pass the validator
+    opts = ['same', 'optional', 'union+', 'ann-over-ignorable']
     if k == 'cls' and node[1] in _CLS_UP:
         opts += ['base', 'base']
     if k == 'cls':
@@ -93,6 +95,11 @@ def widen(draw, node):
         return node
     if m == 'optional':
         return ['union', [node], 'O']
+    if m == 'ann-over-ignorable':
+        base = draw(st.sampled_from([['any', 'object'], ['any', 'object'], ['tv', 'VT']]))
+        v = draw(st.sampled_from([['is', 'truthy'], ['is', 'falsy'], ['is', 'never'], ['isinst', 'str'], ['isinst', 'VBase'],
+                                  ['guard', 'or-and', 'truthy']]))
+        return ['ann', base, [v]]
     if m == 'union+':
         other = draw(H.hint_nodes(0, hashable=True))
         if other[0] == 'any':
